@@ -84,4 +84,47 @@ theorem remove_abs (c : Cache) (seq : Nat) (b e : Int) (hlen : c.cells.length = 
           intro x _
           simpa using (entryOf_rmPair_shift seq b e he x).symm
 
+/-- what mask row `t` exposes: the entries (cell metadata + row data) at the exposed locations -/
+def exposedEntries (c : Cache) (t : Tok) : List Entry := (exposed c t).filterMap (entryAt c)
+
+/-- `t`'s sequence only lives inside the (padded) range the mask and the K/V views cover -/
+def Covers (c : Cache) (t : Tok) : Prop :=
+  c.curRange.max < c.cells.length ∧
+  ∀ j (hj : j < c.cells.length), t.seq ∈ c.cells[j].seqs → c.curRange.min ≤ j ∧ j ≤ c.curRange.max
+
+/-- **The mask is exact** for every token whose sequence is covered by the current range: the
+    entries exposed by its mask row, with the data found at those locations, are exactly — same
+    entries, same multiplicities, same order — the entries of the abstract state that are visible
+    to (sequence, position): same sequence, position not later, inside the window. -/
+theorem mask_exact_of_covers (c : Cache) (t : Tok) (hlen : c.cells.length = c.rows.length)
+    (hcov : Covers c t) :
+    exposedEntries c t = visible c.window (abs c) t.seq t.pos := by
+  obtain ⟨hmax, hcov⟩ := hcov
+  have hnone : ∀ j, j < c.cells.length → (j < c.curRange.min ∨ c.curRange.max < j) →
+      (entryAt c j).filter (vis c.window t.seq t.pos) = none := by
+    intro j hj hout
+    rw [← maskBit_entryAt]
+    have : maskBit c t j = false := by
+      unfold maskBit
+      simp only [List.getD_eq_getElem?_getD, List.getElem?_eq_getElem hj, Option.getD_some]
+      by_cases hm : t.seq ∈ c.cells[j].seqs
+      · have := hcov j hj hm; omega
+      · simp [hm]
+    simp [this]
+  unfold exposedEntries visible exposed
+  rw [abs_eq_range c hlen, filter_filterMap', filterMap_filter']
+  simp only [maskBit_entryAt]
+  by_cases hle : c.curRange.min ≤ c.curRange.max
+  · rw [filterMap_range_restrict _ c.cells.length c.curRange.min (c.curRange.max + 1 - c.curRange.min) (by omega)]
+    intro j hj hout
+    exact hnone j hj (by omega)
+  · have hz : c.curRange.max + 1 - c.curRange.min = 0 := by omega
+    rw [hz]
+    simp only [List.range'_zero, List.filterMap_nil]
+    symm
+    apply filterMap_all_none
+    intro j hj
+    simp only [List.mem_range] at hj
+    exact hnone j hj (by omega)
+
 end OllamaVerif.C06
